@@ -64,6 +64,8 @@ type Prop struct {
 	Workers func(tier string) int
 	// Race: run workers from the -race binary.
 	Race bool
+	// RaceShard selects the -race binary per shard (overrides Race when set).
+	RaceShard func(shard, n int) bool
 	// CaseTimeout overrides the per-case wall-clock watchdog (inconclusive when it fires).
 	CaseTimeout time.Duration
 	// Exhaustive reports whether the tier enumerates its stated finite space completely.
